@@ -3,6 +3,7 @@ CONSTANTS
   BugNextArgNoSkip = FALSE
   BugUseFlagAll = FALSE
   BugOptionalOrigState = FALSE
+  BugNames = "none"
   Reasons <- OptionsReasons
 INVARIANT RLVerdict
 CONSTRAINT RLConsumed
